@@ -197,6 +197,37 @@ def gen_programs(chk):
     return progs
 
 
+def trigger_programs():
+    """every spelling that makes a node a trigger (names taken from the source tables), and near misses"""
+    out = []
+    try:
+        text = open(os.path.join(vlib.REPO, "crates/incan_core/src/lang/surface/functions.rs")).read()
+        names = re.findall(r'SurfaceFnId::\w+,\s*(?://[^\n]*\n\s*)*"(\w+)"', text)
+    except OSError:
+        names = []
+    for n in sorted(set(names)) + ["sleep", "json_stringify", "json_parse", "println", "sleepy", "Sleep", "spawn_", "my_fn"]:
+        out.append("def f() -> None:\n    %s(1)\n" % n)
+        out.append("def f() -> None:\n    x = a.%s(1)\n" % n)           # method of that name: not the builtin
+        out.append("def f() -> None:\n    if c:\n        pass\n    elif d:\n        y = [%s(1) for i in xs]\n" % n)
+    for d in ["Serialize", "Deserialize", "Serialize, Deserialize", "Clone, Debug", "Clone, Serialize", "serialize", "Eq"]:
+        out.append("@derive(%s)\nmodel D:\n    y: int\n" % d)
+        out.append("@derive(%s)\nclass D:\n    y: int\n" % d)
+        out.append("@derive(Clone)\n@derive(%s)\nmodel D:\n    y: int\n" % d)
+    out.append("@derive(Serialize)\nenum E:\n    A\n    B\n")
+    for imp in ["from web import App", "import web", "import web::App", "from web.sub import x", "from std.web import App", "from webby import App", "import my::web",
+                "from ..web import App", "import rust::web", "from rust::axum import Router"]:
+        out.append(imp + "\n\ndef f() -> None:\n    pass\n")
+    out.append("@route(\"/\")\ndef h() -> None:\n    pass\n")
+    out.append("@Route(\"/\")\ndef h() -> None:\n    pass\n")
+    out.append("model M:\n    x: int\n    @route(\"/\")\n    def h(self) -> None:\n        pass\n")
+    out.append("async def f() -> None:\n    pass\n")
+    out.append("model M:\n    x: int\n    async def m(self) -> None:\n        pass\n")
+    out.append("trait T:\n    async def m(self) -> None: ...\n")
+    out.append("import rust::rand\nimport rust::rand\nfrom rust::std::x import y\nimport rust::std\nimport rust::regex as rx\n")
+    out.append("")
+    return out
+
+
 KNOWN = ["rand", "regex", "anyhow", "thiserror", "tracing", "log", "env_logger", "futures", "bytes", "itertools", "uuid", "chrono", "time",
          "clap", "serde", "serde_json", "tokio", "reqwest", "sqlx"]
 
@@ -267,7 +298,7 @@ def build_cases(chk, table=()):
     for x in names:
         for y, spec in table:
             if x != y and (x in y or x in spec):
-                for feat in ("plain", "async"):
+                for feat in (("plain",) if chk.tier == "quick" else ("plain", "async", "serde")):
                     pre, main = FEATURES[feat]
                     k += 1
                     add("pair%d_%s" % (k, feat), {"main.incn": "import rust::%s\nimport rust::%s\n\n" % (x, y) + pre + main}, crates=[x, y])
@@ -275,7 +306,21 @@ def build_cases(chk, table=()):
                 k += 1
                 add("pair%d_dep" % k, {"main.incn": "import rust::%s\nfrom util import one\n\ndef main() -> None:\n    println(one())\n" % x,
                                        "util.incn": "import rust::%s\n\npub def one() -> int:\n    return 1\n" % y}, crates=[x, y])
-    for i, stem in enumerate(["hello", "my_prog", "a-b", "A9", "_x", "my prog", "1abc", "a.b", 'a"b', "x" * 40]):
+    # the feature sits in the 1st / 2nd / 3rd of three imported modules (state carried across modules)
+    for pos in range(3):
+        for feat, body in (("serde", "pub def show(x: int) -> str:\n    return json_stringify(x)\n"), ("async", "pub async def slow() -> int:\n    return 2\n"),
+                           ("crate", "from rust::rand import random\n")):
+            files = {"main.incn": "from m0 import f0\nfrom m1 import f1\nfrom m2 import f2\n\ndef main() -> None:\n    println(f0() + f1() + f2())\n"}
+            for j in range(3):
+                files["m%d.incn" % j] = (body if (j == pos and feat == "crate") else "") + "pub def f%d() -> int:\n    return %d\n" % (j, j) + \
+                    (body if (j == pos and feat != "crate") else "")
+            add("dep3_%s_%d" % (feat, pos), files)
+    add("alias_imports", {"main.incn": "import rust::rand as r\nfrom rust::regex import Regex as Rx\nimport rust::uuid::Uuid\nfrom rust::chrono::naive import NaiveDate\n"
+                                         "import rust::rand\nfrom rust::rand import random\n\n" + MAIN_PLAIN})
+    add("nested_dep", {"main.incn": "from pkg.inner import g\n\ndef main() -> None:\n    println(g())\n",
+                       "pkg/inner.incn": "import rust::itertools\n\npub def g() -> str:\n    return json_stringify(1)\n"})
+    for i, stem in enumerate(["hello", "my_prog", "a-b", "A9", "_x", "my prog", "1abc", "a.b", 'a"b', "x" * 40, "a", "_", "a-", "-a", "x" * 200,
+                              "\u00e9t\u00e9", "\u540d\u524d", "fn", "test", "a\\b", "a'b", "a#b", "9"]):
         add("name_%d" % i, {stem + ".incn": MAIN_PLAIN}, stem=stem)
     return cases
 
@@ -299,7 +344,8 @@ def parse_deps(manifest):
 
 
 def legal_name(n):
-    return re.fullmatch(r"[A-Za-z_][A-Za-z0-9_-]*", n) is not None
+    """cargo's package-name rule (Unicode letters allowed); the Coq model covers the ASCII part"""
+    return bool(n) and (n[0].isalpha() or n[0] == "_") and all(ch.isalnum() or ch in "-_" for ch in n)
 
 
 def cargo_accepts(out_dir):
@@ -329,7 +375,14 @@ def run(chk):
     res = chk.proof_stage("C15", allow_axioms=())
     binary = vlib.build_harness("debug")
     fails, corr_bad, tie_bad = [], [], []
+    gen_arms, cli_vals, scan_vals, model_ok = {}, [], [], False
 
+    import time as _t
+    _t0 = _t.time()
+
+    def lap(what):
+        vlib.log('[c15] %-28s %.1fs' % (what, _t.time() - _t0))
+    lap('proofs+harness')
     # ---- tie: version table
     tv = json.loads(vlib.run_harness(binary, ["run", "c15", "table", vlib.REPO], "").strip().split("\n")[-1])
     if "error" in tv:
@@ -351,13 +404,14 @@ def run(chk):
     known_serde = set(tuple(x) for x in listed.get("scanner-arms", {}).get("witness", {}).get("missing_serde", []))
     known_async = set(tuple(x) for x in listed.get("scanner-arms", {}).get("witness", {}).get("missing_async", []))
 
+    lap('probes')
     ids = Ids()
 
     def edge_list(es):
         return "[" + "; ".join("(%d, %d)" % (ids.kind(k), ids.slot(s)) for k, s in sorted(es)) + "]"
 
     # ---- programs for the scanner correspondence
-    progs = probe_sources(T_SERDE) + probe_sources(T_ASYNC) + gen_programs(chk)
+    progs = probe_sources(T_SERDE) + probe_sources(T_ASYNC) + gen_programs(chk) + trigger_programs()
     scans = scan(binary, progs)
     trees = [(s, r) for s, r in zip(progs, scans) if r["ok"]]
     seen_edges = set()
@@ -400,6 +454,7 @@ def run(chk):
         main_scans = scan(binary, [c["files"][c["stem"] + ".incn"] for c in build])
         dep_scans = [scan(binary, [t for rel, t in sorted(c["files"].items()) if rel != c["stem"] + ".incn"]) for c in build]
 
+        lap('build+scan')
         # ---- model evaluation (one coqc run): scanners on all programs, CLI on the build cases
         model_ok = vlib.coq_build(["C15/Model.vo"])[0]
         req = ("From Coq Require Import ZArith List String.\nImport ListNotations.\nFrom Verif Require Import C15.Model.\nOpen Scope Z_scope.")
@@ -409,14 +464,14 @@ def run(chk):
             root = os.path.realpath(vlib.REPO)
             ver = repo_version()
             for c, b, ms, ds in zip(build, outs, main_scans, dep_scans):
-                if not ms["ok"] or not all(d["ok"] for d in ds):
+                if not ms["ok"] or not all(d["ok"] for d in ds) or not c["stem"].isascii():
                     continue
                 c["modelled"] = True
                 terms.append("(render_cli T %s %s %s %s %s)" % (zs(c["stem"]), zs(root), zs(ver), coq_tree(ms["tree"], ids),
                                                                  "[" + "; ".join(coq_tree(d["tree"], ids) for d in ds) + "]"))
             terms.append("(([] : str), [(if table_ok (t_versions T) then 1 else 0); (if table_wf (t_versions T) then 1 else 0)], ([] : list Z))")
             extra = "Definition T : tables := %s.\n" % tables_term()
-            vals = vlib.coq_eval(req, "str * list Z * list Z", "fun x => x", terms, tag="c15", shard=40, extra_defs=extra)
+            vals = vlib.coq_eval(req, "str * list Z * list Z", "fun x => x", terms, tag="c15", shard=24, extra_defs=extra)
             scan_vals = vals[:len(trees)]
             cli_vals = vals[len(trees):-1]
             table_flags = vals[-1][1]
@@ -424,6 +479,7 @@ def run(chk):
             res["tie_ok"] = False
             res["broken"].append({"what": "model", "message": "C15/Model.v does not build"})
 
+        lap('coq_eval main')
         # ---- version table: every entry pinned and a valid TOML line (evaluated in Coq on the regenerated table)
         if table_flags[0] != 1:
             bad = [n for n, sp in table if not re.match(r'^("\d|\{ version = "\d|\{ path = ")', sp)]
@@ -455,6 +511,10 @@ def run(chk):
         if unprobed:
             chk.notes.append("edges seen in generated programs but not probed (treated as followed): %s" % unprobed[:10])
 
+        import concurrent.futures
+        need_cargo = [c for c, b in zip(build, outs) if (c["name"].startswith("name_") or c["name"] in ("plain", "derive")) and b["ok"] and b["manifest"]]
+        with concurrent.futures.ThreadPoolExecutor(max_workers=8) as ex:
+            cargo_verdict = dict(zip([c["name"] for c in need_cargo], ex.map(lambda c: cargo_accepts(c["out"]), need_cargo)))
         # ---- build-level oracle: the property itself on the generated project
         ci = 0
         for c, b, ms, ds in zip(build, outs, main_scans, dep_scans):
@@ -527,7 +587,7 @@ def run(chk):
                                   "expected": "refusal (UnknownCrateError) or a pinned version", "actual": spec})
             # (4) valid manifest naming package and binary (judged by cargo for the name cases)
             if c["name"].startswith("name_") or c["name"] in ("plain", "derive"):
-                ok, msg = cargo_accepts(c["out"])
+                ok, msg = cargo_verdict.get(c["name"], (False, "not run"))
                 names_ok = ('[package]\nname = "%s"\n' % c["stem"]) in b["manifest"] and ('[[bin]]\nname = "%s"\n' % c["stem"]) in b["manifest"]
                 if stem_ok and not (ok and names_ok):
                     fails.append({"case": c["name"], "files": c["files"], "why": "legal project name but cargo rejects the manifest or the names are wrong: " + msg})
@@ -544,6 +604,59 @@ def run(chk):
                 elif tomlok_m != 1 or (legal_m == 1) != stem_ok:
                     corr_bad.append({"case": c["name"], "what": "manifest_ok / legal_name disagree with the implementation", "model": v[2]})
 
+        lap('oracle (incl. cargo metadata)')
+        # ---- the manifest writer alone (library call), every flag combination x crate sets x bin/lib
+        tdict = dict(table)
+        crate_sets = [[], [("rand", None)], [("zeta", '"9.9"'), ("alpha", '{ version = "1", features = ["x", "y"] }')],
+                      [("serde", None), ("tokio", None), ("axum", '"0.1"'), ("serde_json", None)], [("time", None), ("log", None), ("env_logger", None)],
+                      [("nosuchcrate", None), ("uuid", None)], [(n, None) for n in sorted(tdict)]]
+        gcases = []
+        for bits in range(16):
+            for ci_, cs in enumerate(crate_sets):
+                if chk.tier == "quick" and (bits * 7 + ci_) % 3 != 0 and ci_ not in (0, 3):
+                    continue
+                gcases.append({"name": "lib_name-%d" % bits, "bin": bool(bits & 1), "serde": bool(bits & 2), "tokio": bool(bits & 4), "axum": bool(bits & 8),
+                               "crates": [[n, sp] for n, sp in cs], "out": os.path.join(scratch, "gen", "g%d_%d" % (bits, ci_))})
+        p = subprocess.run([binary, "run", "c15", "gen"], input="\n".join(json.dumps(g) for g in gcases) + "\n", capture_output=True, text=True, timeout=600)
+        if p.returncode != 0:
+            raise vlib.Infra("c15 gen failed: " + p.stderr[-1500:])
+        gouts = [json.loads(l[6:]) for l in p.stdout.split("\n") if l.startswith("@@C15 ")]
+        if len(gouts) != len(gcases):
+            raise vlib.Infra("c15 gen returned %d results for %d cases" % (len(gouts), len(gcases)))
+        if model_ok:
+            gterms = []
+            for g in gcases:
+                cr = [(n, sp if sp is not None else tdict.get(n)) for n, sp in g["crates"] if sp is not None or n in tdict]
+                g["model_crates"] = cr
+                gterms.append("(render_gen (mkGen %s %s %s %s %s %s %s %s))" % (
+                    zs(g["name"]), *["true" if g[k] else "false" for k in ("bin", "serde", "tokio", "axum")],
+                    "[" + "; ".join("(%s, Some %s)" % (zs(n), zs(sp)) for n, sp in reversed(cr)) + "]", zs(os.path.realpath(vlib.REPO)), zs(repo_version())))
+            gvals = vlib.coq_eval(req, "str * list Z * list Z", "fun x => x", gterms, tag="c15g", shard=30)
+            for g, o, v in zip(gcases, gouts, gvals):
+                chk.count_case(("gen", json.dumps(g, sort_keys=True)), nontrivial=True)
+                text = "".join(chr(x) for x in v[0])
+                refused_want = sorted(n for n, sp in g["crates"] if sp is None and n not in tdict)
+                if not o.get("ok") or o.get("manifest") != text or sorted(o.get("refused", [])) != refused_want:
+                    corr_bad.append({"case": g, "what": "ProjectGenerator::generate vs generate_cargo_toml model", "model": text, "impl": o})
+                    continue
+                want_file = "src/main.rs" if g["bin"] else "src/lib.rs"
+                if o.get("files") != [want_file]:
+                    fails.append({"case": json.dumps(g), "why": "writer produced %s, expected only %s" % (o.get("files"), want_file)})
+                deps = parse_deps(text)
+                if len({n for n, _ in deps}) != len(deps):
+                    fails.append({"case": json.dumps(g), "why": "duplicate dependency keys in the manifest: %s" % [n for n, _ in deps]})
+                if v[2][1] != 1:
+                    corr_bad.append({"case": g, "what": "manifest_ok rejects a writer manifest", "model": v[2]})
+                for a in ("bin" if g["bin"] else "lib", "serde" if g["serde"] else "no-serde", "axum+tokio_net" if g["axum"] else ("tokio" if g["tokio"] else "no-tokio"),
+                          "stdlib_feats=" + "+".join((["web"] if g["axum"] else []) + (["json"] if g["serde"] else [])),
+                          "rust_deps=%d" % min(2, len([n for n, _ in g["model_crates"] if n not in [d for d, _ in deps[:6]] or True]))):
+                    gen_arms["writer." + a] = gen_arms.get("writer." + a, 0) + 1
+                skipped = [n for n, _ in g["model_crates"] if [d for d, _ in deps].count(n) == 1 and n in ("serde", "serde_json", "tokio", "axum")
+                           and ((n in ("serde", "serde_json") and g["serde"]) or (n == "tokio" and (g["tokio"] or g["axum"])) or (n == "axum" and g["axum"]))]
+                gen_arms["writer.skip_already_added"] = gen_arms.get("writer.skip_already_added", 0) + len(skipped)
+        chk.coverage["traces_validated_against_impl"] += len(gcases)
+
+        lap('writer-direct')
         # ---- known findings: re-run witnesses
         by = {c["name"]: (c, b) for c, b in zip(build, outs)}
         if "wildcard-dep" in listed and by["unknown_crate"][1]["manifest"] and 'foobarbaz = "*"' in by["unknown_crate"][1]["manifest"]:
@@ -568,6 +681,43 @@ def run(chk):
     finally:
         shutil.rmtree(scratch, ignore_errors=True)
 
+    arms = {"cli_build.built": 0, "cli_build.refused_illegal_name": 0, "cli_build.refused_unknown_crate": 0, "lookup.hit": 0, "lookup.miss": 0,
+            "modules.main_only": 0, "modules.with_deps": 0}
+    for nm in ("serde", "async", "web"):
+        for a in ("detect.%s.true", "detect.%s.false_no_use", "trigger_at_root_decl.%s", "trigger_nested.%s"):
+            if a % nm != "trigger_nested.web":   # web triggers exist at declaration level only
+                arms[a % nm] = 0
+    for (src, r), v in zip(trees, scan_vals):
+        m = v[1]
+        for i, nm in enumerate(("serde", "async", "web")):
+            arms["detect.%s.%s" % (nm, "true" if m[i] else "false_no_use")] += 1
+            for pth in trigger_paths(r["tree"], 1 << i):
+                a = ("trigger_at_root_decl.%s" if len(pth) <= 1 else "trigger_nested.%s") % nm
+                arms[a] = arms.get(a, 0) + 1
+    mi = 0
+    for c, b, ms, ds in zip(build, outs, main_scans, dep_scans):
+        if not c.get("modelled") or mi >= len(cli_vals):
+            continue
+        v = cli_vals[mi]
+        mi += 1
+        arms["modules.with_deps" if ds else "modules.main_only"] += 1
+        if v[2][0] == 1:
+            arms["cli_build.built"] += 1
+        elif v[2][3] == 0:
+            arms["cli_build.refused_illegal_name"] += 1
+        else:
+            arms["cli_build.refused_unknown_crate"] += 1
+        for m in [ms] + list(ds):
+            for cr in m.get("crates", []):
+                arms["lookup.hit" if cr in dict(table) else "lookup.miss"] += 1
+    arms.update(gen_arms)
+    for a in ("writer.bin", "writer.lib", "writer.serde", "writer.no-serde", "writer.axum+tokio_net", "writer.tokio", "writer.no-tokio", "writer.stdlib_feats=",
+              "writer.stdlib_feats=web", "writer.stdlib_feats=json", "writer.stdlib_feats=web+json", "writer.skip_already_added"):
+        arms.setdefault(a, 0)
+    chk.coverage["model_arm_hits"] = arms
+    zero = sorted(a for a, n in arms.items() if n == 0)
+    if zero and model_ok:
+        chk.notes.append("GENERATOR BUG: model arms never reached: %s" % zero)
     chk.coverage["rule"] = ("scanner cases: one probe per (constructor, slot) for two triggers + seeded random nestings, non-trivial when a trigger is present; "
                             "build cases: fixed well-typed projects (features, crates, dependency modules, project names) generated by the real build_file")
     chk.coverage["correspondence_mismatches"] = len(corr_bad)
